@@ -9,7 +9,8 @@ cd /repo
 if [ -n "$(git status --porcelain)" ]; then echo "REFUSING: /repo working tree not clean"; exit 2; fi
 echo "== demo on unchanged /repo"; PYTHONPATH=/repo /venv/bin/python $D/demo.py > /dev/null 2>&1; echo "exit=$?"
 git apply "$D/patch.diff" || { echo "patch does not apply"; exit 2; }
-trap 'git -C /repo checkout -- . ; git -C /repo status --short' EXIT
+restore() { git -C /repo checkout -- . ; git -C /repo status --short; cd /verif; for c in $CHECKS; do ./check $c > /dev/null 2>&1; echo "evidence of $c refreshed on the clean tree (exit $?)"; done; rm -f /verif/replays/*.json; }
+trap restore EXIT
 echo "== demo with the seeded change"; PYTHONPATH=/repo /venv/bin/python $D/demo.py 2>&1 | grep -v conda | tail -3; echo "exit=${PIPESTATUS[0]}"
 cd /verif
 for c in $CHECKS; do
